@@ -553,10 +553,26 @@ class _CompressionMiddleware:
                     f"supported: {', '.join(e.value for e in self._decode) or 'none'}"
                 ),
             )
-        try:
-            compressed = getattr(req.context, "capped_request_body", None)
-            if compressed is None:
+        compressed = getattr(req.context, "capped_request_body", None)
+        if compressed is None:
+            limit = self._max_decompressed_bytes
+            if limit is None:
                 compressed = req.bounded_stream.read()
+            else:
+                # No earlier middleware bounded this body (a path exempt from
+                # the wire cap may arrive without Content-Length): the coded
+                # body is itself request bytes, so never pull more than the
+                # cap plus a one-byte sentinel.
+                compressed = req.bounded_stream.read(limit + 1)
+                if len(compressed) > limit:
+                    raise falcon.HTTPContentTooLarge(
+                        title="Request body exceeds max_request_bytes",
+                        description=(
+                            f"Request body of at least {len(compressed)} bytes exceeds the server's "
+                            f"advertised max_request_bytes={limit}."
+                        ),
+                    )
+        try:
             decompressed = _decompress_with_encoding(req_enc, compressed, max_output_size=self._max_decompressed_bytes)
             # pa.BufferReader rather than BytesIO: Arrow reads through this
             # from C++, and a BytesIO makes it cross back into Python for
